@@ -220,8 +220,71 @@ def search_layering():
     return None
 
 
+def search_error_code_layers():
+    """error-code options: command-line -e/-d settings x a top-level value x per-module overrides (one with disable_all) x module paths;
+    inclusion cycles through several files are configuration errors"""
+    import os
+    import tempfile
+    from pathlib import Path
+    from pyanalyze.error_code import ErrorCode
+    from pyanalyze.name_check_visitor import NameCheckVisitor
+    from pyanalyze.options import ConfigOption, InvalidConfigOption, parse_config_file
+    d = tempfile.mkdtemp()
+    path = os.path.join(d, "pyproject.toml")
+    code, other = ErrorCode.undefined_name, ErrorCode.incompatible_call
+    paths = [path]
+    try:
+        for top in (True, False):
+            for ov in (True, False):
+                with open(path, "w") as f:
+                    f.write(f"[tool.pyanalyze]\n{code.name} = {str(top).lower()}\n"
+                            f"[[tool.pyanalyze.overrides]]\nmodule = 'a'\n{code.name} = {str(ov).lower()}\n"
+                            f"[[tool.pyanalyze.overrides]]\nmodule = 'b'\ndisable_all = true\n")
+                for settings in ({}, {code: False}, {code: True}, {other: False}):
+                    kw = NameCheckVisitor.prepare_constructor_kwargs({"settings": dict(settings), "config_file": Path(path)})
+                    opts = kw["checker"].options
+                    for mp in [(), ("a",), ("a", "x"), ("b",), ("c",)]:
+                        for c in (code, other):
+                            if c in settings:
+                                want, why = settings[c], "the command-line setting"
+                            elif mp[:1] == ("b",):
+                                want, why = False, "disable_all in the override for module b"
+                            elif c is code and mp[:1] == ("a",):
+                                want, why = ov, "the override for module a"
+                            elif c is code:
+                                want, why = top, "the top-level value"
+                            else:
+                                want, why = ConfigOption.registry[c.name].default_value, "the default"
+                            got = opts.for_module(mp).is_error_code_enabled(c)
+                            if got != want:
+                                return (f"config: {code.name} = {top} at top level, = {ov} in the override for module a, disable_all in the override for module b; command line {settings}: "
+                                        f"{c.name} in module {'.'.join(mp) or '<top>'} is enabled={got}, {why} says {want}")
+        # inclusion cycles of length 2 and 3
+        for n in (2, 3):
+            names = [os.path.join(d, f"c{n}_{i}.toml") for i in range(n)]
+            paths += names
+            for i, nm in enumerate(names):
+                with open(nm, "w") as f:
+                    f.write(f"[tool.pyanalyze]\nextend_config = '{os.path.basename(names[(i + 1) % n])}'\n")
+            try:
+                list(parse_config_file(Path(names[0])))
+                return f"an extend_config cycle through {n} files was accepted"
+            except InvalidConfigOption:
+                pass
+            except RecursionError:
+                return f"an extend_config cycle through {n} files is not rejected as a configuration error: parsing recurses until RecursionError"
+    finally:
+        for p_ in paths:
+            try:
+                os.unlink(p_)
+            except OSError:
+                pass
+        os.rmdir(d)
+    return None
+
+
 def r_c18_bounded(rec):
-    for fn in (search_cmdline, search_layering):
+    for fn in (search_cmdline, search_layering, search_error_code_layers):
         msg = fn()
         if msg:
             return True, msg
@@ -230,3 +293,5 @@ def r_c18_bounded(rec):
 
 REPLAYERS["C18.bounded"] = r_c18_bounded
 REPLAYERS["pyanalyze.name_check_visitor.NameCheckVisitor.prepare_constructor_kwargs"] = lambda rec: (lambda m: (bool(m), m or "command-line values win"))(search_cmdline())
+
+REPLAYERS["C11.layers"] = lambda rec: (lambda m: (bool(m), m or "error-code enablement follows command line > override > top level > default on the generated configurations"))(search_error_code_layers())
